@@ -384,3 +384,64 @@ package basicnode
 //@   assigns *na.w
 //@   ensures[C01,C03] err == nil ==> datamodel.vkind(v.val) == datamodel.Kind_Int && datamodel.vint(v.val) <= 9223372036854775807 && *na.w == datamodel.vint(v.val)
 //@   ensures[C01,C03] err != nil ==> *na.w == old(*na.w)
+
+// ---- the remaining scalar assigns of the list and map value assemblers: exactly one entry is
+//      completed, holding a node of the assigned kind with the assigned value ----
+//@ func (*plainList__ValueAssembler).AssignBool(v) (err)
+//@   requires lva != nil && listwip(lva.la) && lva.la.state == laState_midValue
+//@   assigns lva.la, old(lva.la).state, old(lva.la).w.x, cells(old(lva.la).w.x)
+//@   ensures[C01,C12] err == nil && old(lva.la).state == laState_initial && listwip(old(lva.la)) && len(old(lva.la).w.x) == old(len(lva.la.w.x)) + 1
+//@   ensures[C01] dyntype(old(lva.la).w.x[len(old(lva.la).w.x)-1], "*plainBool") && *unbox(old(lva.la).w.x[len(old(lva.la).w.x)-1], "*plainBool") == v
+//@ func (*plainList__ValueAssembler).AssignFloat(v) (err)
+//@   requires lva != nil && listwip(lva.la) && lva.la.state == laState_midValue
+//@   assigns lva.la, old(lva.la).state, old(lva.la).w.x, cells(old(lva.la).w.x)
+//@   ensures[C01,C12] err == nil && old(lva.la).state == laState_initial && listwip(old(lva.la)) && len(old(lva.la).w.x) == old(len(lva.la.w.x)) + 1
+//@   ensures[C01] dyntype(old(lva.la).w.x[len(old(lva.la).w.x)-1], "*plainFloat") && *unbox(old(lva.la).w.x[len(old(lva.la).w.x)-1], "*plainFloat") == v
+//@ func (*plainList__ValueAssembler).AssignString(v) (err)
+//@   requires lva != nil && listwip(lva.la) && lva.la.state == laState_midValue
+//@   assigns lva.la, old(lva.la).state, old(lva.la).w.x, cells(old(lva.la).w.x)
+//@   ensures[C01,C12] err == nil && old(lva.la).state == laState_initial && listwip(old(lva.la)) && len(old(lva.la).w.x) == old(len(lva.la.w.x)) + 1
+//@   ensures[C01] dyntype(old(lva.la).w.x[len(old(lva.la).w.x)-1], "*plainString") && *unbox(old(lva.la).w.x[len(old(lva.la).w.x)-1], "*plainString") == v
+//@ func (*plainList__ValueAssembler).AssignBytes(v) (err)
+//@   requires lva != nil && listwip(lva.la) && lva.la.state == laState_midValue
+//@   assigns lva.la, old(lva.la).state, old(lva.la).w.x, cells(old(lva.la).w.x)
+//@   ensures[C01,C12] err == nil && old(lva.la).state == laState_initial && listwip(old(lva.la)) && len(old(lva.la).w.x) == old(len(lva.la.w.x)) + 1
+//@   ensures[C01] dyntype(old(lva.la).w.x[len(old(lva.la).w.x)-1], "*plainBytes") && *unbox(old(lva.la).w.x[len(old(lva.la).w.x)-1], "*plainBytes") == v
+//@ func (*plainList__ValueAssembler).AssignLink(v) (err)
+//@   requires lva != nil && listwip(lva.la) && lva.la.state == laState_midValue
+//@   assigns lva.la, old(lva.la).state, old(lva.la).w.x, cells(old(lva.la).w.x)
+//@   ensures[C01,C12] err == nil && old(lva.la).state == laState_initial && listwip(old(lva.la)) && len(old(lva.la).w.x) == old(len(lva.la.w.x)) + 1
+//@   ensures[C01] dyntype(old(lva.la).w.x[len(old(lva.la).w.x)-1], "*plainLink") && unbox(old(lva.la).w.x[len(old(lva.la).w.x)-1], "*plainLink").x == v
+//@ func (*plainMap__ValueAssembler).AssignFloat(v) (err)
+//@   requires mva != nil && wip(mva.ma) && mva.ma.state == maState_midValue
+//@   assigns mva.ma, old(mva.ma).state, cells(old(mva.ma).w.t), map(old(mva.ma).w.m)
+//@   ensures[C01,C12] err == nil && old(mva.ma).state == maState_initial && wip(old(mva.ma)) && len(old(mva.ma).w.t) == old(len(mva.ma.w.t))
+//@   ensures[C01] dyntype(old(mva.ma).w.t[len(old(mva.ma).w.t)-1].v, "*plainFloat") && *unbox(old(mva.ma).w.t[len(old(mva.ma).w.t)-1].v, "*plainFloat") == v
+//@ func (*plainMap__ValueAssembler).AssignBytes(v) (err)
+//@   requires mva != nil && wip(mva.ma) && mva.ma.state == maState_midValue
+//@   assigns mva.ma, old(mva.ma).state, cells(old(mva.ma).w.t), map(old(mva.ma).w.m)
+//@   ensures[C01,C12] err == nil && old(mva.ma).state == maState_initial && wip(old(mva.ma)) && len(old(mva.ma).w.t) == old(len(mva.ma.w.t))
+//@   ensures[C01] dyntype(old(mva.ma).w.t[len(old(mva.ma).w.t)-1].v, "*plainBytes") && *unbox(old(mva.ma).w.t[len(old(mva.ma).w.t)-1].v, "*plainBytes") == v
+//@ func (*plainMap__ValueAssembler).AssignLink(v) (err)
+//@   requires mva != nil && wip(mva.ma) && mva.ma.state == maState_midValue
+//@   assigns mva.ma, old(mva.ma).state, cells(old(mva.ma).w.t), map(old(mva.ma).w.m)
+//@   ensures[C01,C12] err == nil && old(mva.ma).state == maState_initial && wip(old(mva.ma)) && len(old(mva.ma).w.t) == old(len(mva.ma.w.t))
+//@   ensures[C01] dyntype(old(mva.ma).w.t[len(old(mva.ma).w.t)-1].v, "*plainLink") && unbox(old(mva.ma).w.t[len(old(mva.ma).w.t)-1].v, "*plainLink").x == v
+
+// ---- the scalar assemblers accept a node only of their own kind and store exactly its value ----
+//@ func (*plainBool__Assembler).AssignNode(v) (err)
+//@   requires na != nil && na.w != nil && v != nil
+//@   assigns *na.w
+//@   ensures[C01] err == nil ==> datamodel.vkind(v.val) == datamodel.Kind_Bool && *na.w == datamodel.vbool(v.val)
+//@ func (*plainString__Assembler).AssignNode(v) (err)
+//@   requires na != nil && na.w != nil && v != nil
+//@   assigns *na.w
+//@   ensures[C01] err == nil ==> datamodel.vkind(v.val) == datamodel.Kind_String && *na.w == datamodel.vstr(v.val)
+//@ func (*plainFloat__Assembler).AssignNode(v) (err)
+//@   requires na != nil && na.w != nil && v != nil
+//@   assigns *na.w
+//@   ensures[C01] err == nil ==> datamodel.vkind(v.val) == datamodel.Kind_Float && *na.w == datamodel.vfloat(v.val)
+//@ func (*plainLink__Assembler).AssignNode(v) (err)
+//@   requires na != nil && na.w != nil && v != nil
+//@   assigns *na.w
+//@   ensures[C01] err == nil ==> datamodel.vkind(v.val) == datamodel.Kind_Link && na.w.x == datamodel.vlink(v.val)
